@@ -4,7 +4,7 @@
 # Runs many (patch, checks) jobs in parallel "lanes". /verif/check builds against /repo, of which there is only one, so
 # applying patches there is strictly serial (./seedtest.sh run, ./oktest.sh run). A lane is a byte-identical copy of
 # /verif/harness whose path dependency points at its own scratch worktree of /repo (HEAD), with its own output root;
-# the verdicts are those of the same harness sources on the same subject sources. Used for the seeded / benign
+# the verdicts are those of the same harness sources on the same subject sources. Job files: ./matrix_jobs.py. Used for the seeded / benign
 # matrices only - the evidence under /verif/evidence always comes from ./check against /repo itself.
 #
 # jobfile lines:   <name> <patchfile> <tier> <id> [<id> ...]
